@@ -277,6 +277,17 @@ def crashObs (st : St) (tag obs : String) : St × Option String :=
         else
           let kw := if c.kind = "delall" then "S1-interrupted-wipe-not-resumed" else "C10-crash-not-atomic"
           (st, some s!"{kw} op={c.kind} crash-after-writes={c.k}/{c.n} reopen={tag} observed=[{obs}] before=[{b.getD "?"}] after=[{a.getD "?"}]")
+    else if tag = "io" then
+      -- a write of the operation failed with an error and the handle lives on: it must show the state before
+      match lookupS c.before "v:open" with
+      | some b => if obs = b then (st, none)
+        else (st, some s!"C09-failed-put-changed-state op={c.kind}: after a datastore error inside Put the live handle observes [{obs}], before the Put it was [{b}]")
+      | none => (st, none)
+    else if tag = "io-retry" then
+      match lookupS c.after "v:open" with
+      | some a => if obs = a then (st, none)
+        else (st, some s!"C09-put-not-repeatable-after-error op={c.kind}: repeating the Put on the same handle after a datastore error gives [{obs}], expected [{a}]")
+      | none => (st, none)
     else if tag = "retry" then
       let a := lookupS c.after "v:open"
       if c.full && a.isNone then (st, none)
